@@ -634,6 +634,24 @@ func c03Shapes() []c03Shape {
 			r.add("info", infoEED())
 			return r
 		}},
+		{"swallowed-after-final-done", func(rnd *rt.Rand) *response {
+			// packages the library keeps to itself (an environment change, an
+			// informational message) arrive after the server's final DONE,
+			// before the end of the message: the consumer has its final DONE
+			r := &response{}
+			mkRows(rnd, r, rnd.Range(0, 2))
+			r.add(done(0, 0))
+			switch rnd.Intn(3) {
+			case 0:
+				r.add("env", env())
+			case 1:
+				r.add("info", infoEED())
+			default:
+				r.add("env", env())
+				r.add("info", infoEED())
+			}
+			return r
+		}},
 		{"empty-response", func(rnd *rt.Rand) *response { return &response{} }},
 	}
 }
@@ -713,7 +731,7 @@ func c03GenRound(rnd *rt.Rand, shapes []c03Shape, si int) c03Round {
 
 func runC03(c *Ctx) {
 	r := c.R
-	r.Rule = "histories of 2-6 request/response rounds on one channel; 14 response shapes (rows, several result sets with DONE(MORE), trailing DONE with COUNT/PROC/ERROR/INXACT bits, DONE missing, params+status, info and error EED at package boundaries incl. directly before ROW/PARAMS, ENVCHANGE, only-swallowed packages, empty response) × 6 packetisation classes × consumers {NextPackage loop, NextPackageUntil with the callback returning true / io.EOF / an error at every package index}; every ordered pair of shapes occurs as consecutive rounds (enumerated), the rest seeded; non-trivial = >= 2 rounds and a round ending without a real final DONE or a consumer abort; distinct = full history description"
+	r.Rule = "histories of 2-6 request/response rounds on one channel; 15 response shapes (rows, several result sets with DONE(MORE), trailing DONE with COUNT/PROC/ERROR/INXACT bits, DONE missing, params+status, info and error EED at package boundaries incl. directly before ROW/PARAMS, ENVCHANGE, only-swallowed packages, swallowed packages after the final DONE, empty response) × 6 packetisation classes × consumers {NextPackage loop, NextPackageUntil with the callback returning true / io.EOF / an error at every package index}; every ordered pair of shapes occurs as consecutive rounds (enumerated), the rest seeded; non-trivial = >= 2 rounds and a round ending without a real final DONE or a consumer abort; distinct = full history description"
 	r.TrustedBase = []string{"round model c03Expected (what must be delivered: server packages minus ENVCHANGE / informational EED, plus one library-supplied final DONE iff the last delivered package is not DONE(status 0))", "harness/srv encoder"}
 	r.Assumptions = []string{"the consumer starts reading a round only after the reader goroutine has processed the whole response (transport barrier); a consumer that would wait although nothing more can arrive is released by a 2 s watchdog and the hang is confirmed structurally (reader idle, nothing queued)", "EED packages are not passed to a NextPackageUntil callback by design (they are collected for the error value); that consumer style is judged on the non-EED packages"}
 	if c.Replay != nil {
